@@ -9,9 +9,9 @@ run() returns (v is None or not, u / v / affinity laid out as the library's resu
 spelled (16 ifs, an elif chain, a computed case number, hoisted resize, ...)."""
 import re
 
-ADJ = [[0, 1, 1, 0], [1, 2, 0, 2], [2, 3, 1, 1], [3, 0, 2, 0], [0, 2, 1, 1]]      # 5 records, 2 layers, 4 vertices
+ADJ = [[0, 1, 1, 0], [1, 2, 0, 2], [2, 3, 1, 1], [3, 0, 2, 0], [0, 2, 1, 1], [4, 1, 1, 0], [2, 5, 0, 1], [6, 4, 1, 1]]      # 8 records, 2 layers, 7 vertices: 6 is only a source, 5 only a target
 WFILE = [[0, 0.125, 0.25, 0.375], [1, 0.5, 0.625, 0.75]]                          # layer, d_1..d_K   (K = 3, L = 2)
-N, K, L = 4, 3, 2
+N, K, L = 7, 3, 2
 NREAL, MAXIT, NCONV, SEED = 7, 11, 13, 12345
 
 
@@ -440,6 +440,28 @@ def simulate(src):
                                  'v_none': v is None, 'u_ok': tolist(u) == exp_u, 'v_ok': (v is None) or tolist(v) == exp_v,
                                  'aff_ok': tolist(aff) == exp_aff,
                                  'report_ok': isinstance(rep, ReportWrapper) and getattr(getattr(rep, 'c_obj', None), 'tag', None) == 'library report'})
+    # what run() does with the arguments a caller may leave out: directed, non-assortative, random start, float weights ... and the clock as the seed
+    world = World()
+    ns = {'numpy': NumpyMock({'ADJ': ADJ, 'WF': WFILE}), 'time': lambda *_: 999, 'deref': lambda x: x, 'CAST': do_cast, 'ReportWrapper': ReportWrapper, 'logging': None}
+    for nm in ('vector', 'Matrix', 'get_num_vertices', 'RandomGenerator', 'mt19937', 'uniform_real_distribution', 'vertex_t',
+               'undirectedS', 'bidirectionalS', 'directedS', 'SymmetricTensor', 'DiagonalTensor', 'init_symmetric_tensor_random',
+               'init_symmetric_tensor_from_initial', 'c_multitensor_factorization', 'string', 'size_t', 'time_t'):
+        ns[nm] = TName(nm, world)
+    try:
+        exec(compiled, ns)
+        ret = ns['run']('ADJ', K)
+    except SimError:
+        raise
+    except Exception as e:
+        raise SimError('run(adjacency, K) with every other argument left out failed under simulation: %s: %s' % (type(e).__name__, e))
+    ref = next(r for r in rows if r['directed'] and not r['assort'] and not r['file'] and not r['wint'])
+    if len(world.calls) != 1 or world.calls[0][0] != ref['calls'][0][0] or (ret[1] is None):
+        raise SimError('run(adjacency, K) with every other argument left out does not run the directed, non-assortative, random-start, real-weight variant: %s' % ([c[0] for c in world.calls],))
+    a_ref, a_def = ref['calls'][0][1], world.calls[0][1]
+    if [x for i, x in enumerate(a_def) if i not in (3, 4, 5, 10)] != [x for i, x in enumerate(a_ref) if i not in (3, 4, 5, 10)]:
+        raise SimError('run(adjacency, K) with every other argument left out passes other data to the library than the explicit call: %s vs %s' % (a_def, a_ref))
+    if '999' not in str(a_def[10]):
+        raise SimError('run() without a seed does not seed the generator from the clock: %s' % (a_def[10],))
     return rows
 
 
